@@ -406,6 +406,18 @@ pub struct HashMapStats {
     pub cache_misses: u64,
 }
 
+/// Slot hashes double as occupancy markers: 0 means "empty" and `u64::MAX` means "deleted".
+/// A caller-supplied hasher may legitimately produce either value, so stored hashes are
+/// moved off the two sentinels (the mapping is applied identically on every lookup).
+#[inline]
+fn normalize_hash(hash: u64) -> u64 {
+    match hash {
+        0 => 1,
+        u64::MAX => u64::MAX - 1,
+        h => h,
+    }
+}
+
 impl<K, V, S> ZiporaHashMap<K, V, S>
 where
     K: Hash + Eq + Clone,
@@ -690,7 +702,7 @@ where
     fn hash_key(&self, key: &K) -> u64 {
         let mut hasher = self.hash_builder.build_hasher();
         key.hash(&mut hasher);
-        hasher.finish()
+        normalize_hash(hasher.finish())
     }
 
     /// Hash a borrowed key using the configured hasher
@@ -701,7 +713,7 @@ where
     {
         let mut hasher = self.hash_builder.build_hasher();
         key.hash(&mut hasher);
-        hasher.finish()
+        normalize_hash(hasher.finish())
     }
 
     /// Resize the storage to accommodate more elements
@@ -714,7 +726,7 @@ where
                 // Collect all existing key-value pairs
                 let mut existing_entries = Vec::new();
                 for entry in entries.iter() {
-                    if entry.hash != 0 {
+                    if entry.hash != 0 && entry.hash != u64::MAX {
                         existing_entries.push((entry.key.clone(), entry.value.clone(), entry.hash));
                     }
                 }
@@ -811,22 +823,35 @@ where
         let capacity = entries.len();
         let index = (hash as usize) & *mask;
 
-        // Linear probing to find slot
+        // Linear probing: the key may live beyond a tombstone, so remember the first
+        // reusable slot but keep looking until an empty slot ends the probe sequence
+        let mut reusable: Option<usize> = None;
         for i in 0..capacity {
             let probe_index = (index + i) & *mask;
             let entry = &mut entries[probe_index];
 
-            if entry.hash == 0 || entry.hash == u64::MAX {
-                // Empty slot or tombstone, insert here
-                entry.key = key;
-                entry.value = value;
-                entry.hash = hash;
-                return Ok(None);
+            if entry.hash == 0 {
+                if reusable.is_none() {
+                    reusable = Some(probe_index);
+                }
+                break;
+            } else if entry.hash == u64::MAX {
+                if reusable.is_none() {
+                    reusable = Some(probe_index);
+                }
             } else if entry.hash == hash && entry.key == key {
                 // Key exists, update value
                 let old_value = std::mem::replace(&mut entry.value, value);
                 return Ok(Some(old_value));
             }
+        }
+
+        if let Some(slot) = reusable {
+            let entry = &mut entries[slot];
+            entry.key = key;
+            entry.value = value;
+            entry.hash = hash;
+            return Ok(None);
         }
 
         // Table is full, need to resize
@@ -972,7 +997,7 @@ where
 
         let mut hasher = hash_builder.build_hasher();
         key.hash(&mut hasher);
-        let hash = hasher.finish();
+        let hash = normalize_hash(hasher.finish());
 
         let capacity = entries.len();
         let index = (hash as usize) & *mask;
@@ -1066,7 +1091,7 @@ where
 
         let mut hasher = hash_builder.build_hasher();
         key.hash(&mut hasher);
-        let hash = hasher.finish();
+        let hash = normalize_hash(hasher.finish());
 
         let capacity = entries.len();
         let index = (hash as usize) & *mask;
@@ -1327,7 +1352,7 @@ where
                 while self.index < entries.len() {
                     let entry = &entries[self.index];
                     self.index += 1;
-                    if entry.hash != 0 {
+                    if entry.hash != 0 && entry.hash != u64::MAX {
                         return Some((&entry.key, &entry.value));
                     }
                 }
